@@ -230,14 +230,14 @@ def build_recording(tier):
             ("Pipeline_c13sim.cfg", 400 if thorough else 24, None, V0 + A0),
             ("Pipeline_c14sim.cfg", 2000 if thorough else 40, None, V0), ("Pipeline_c14types.cfg", None, 10 ** 6, V0), ("Pipeline_c14generics.cfg", None, 10 ** 6, V0)]
     if thorough:
-        plan.append(("Pipeline_c10sim.cfg", 1500, None, A0))
+        plan.append(("Pipeline_c10sim.cfg", None, 1500, A0))     # every double perturbation, enumerated; a stratified sample is run
     import concurrent.futures
     conf = {"events": 0, "runs": 0, "rejected": []}
 
     def emit(item):
         cfgname, sim, take, flags = item
         out = os.path.join(sc, cfgname + ".cases")
-        r = c.tlc("PipelineMC", cfgname, workers=1, out_file=out, simulate=("num=%d" % sim) if sim else None, depth=80 if sim else None, seed_=seed, timeout=3000)
+        r = c.tlc("PipelineMC", cfgname, workers=1, out_file=out, simulate=("num=%d" % sim) if sim else None, depth=80 if sim else None, seed_=seed, timeout=7200)
         if r.rc == 124 or r.error or r.violated:
             raise c.Trouble("TLC emission run %s failed:\n%s" % (cfgname, r.out[-2000:]))
         return item, out, r
